@@ -577,7 +577,66 @@ fn hostile_mode(inputs: &[Value], _seed: u64, si: usize, sn: usize, out: &mut Tr
 }
 
 // ---------------------------------------------------------------------------------------
+// Timeline of a scenario: the client actions (logged BEFORE the socket call, with the same sequence
+// counter as the server hooks) for the mechanism-level validation against Server.tla.
+
+#[derive(Default)]
+struct Timeline {
+    next: usize,
+    ports: BTreeMap<u16, String>,
+    client: Vec<Value>,
+}
+impl Timeline {
+    fn log(&mut self, name: &str, c: &str, kind: &str) {
+        let s = SEQ.fetch_add(1, Ordering::SeqCst);
+        self.client.push(json!({"seq": s, "name": name, "c": c, "kind": kind}));
+    }
+    fn connect(&mut self, addr: SocketAddr) -> Option<(TcpStream, String)> {
+        self.next += 1;
+        let c = format!("c{}", self.next);
+        self.log("c.connect", &c, "-");
+        let s = connect(addr)?;
+        if let Ok(a) = s.local_addr() {
+            self.ports.insert(a.port(), c.clone());
+        }
+        Some((s, c))
+    }
+    fn send(&mut self, c: &str, kind: &str) {
+        self.log("c.send", c, kind);
+    }
+    fn close(&mut self, c: &str) {
+        self.log("c.close", c, "-");
+    }
+    fn fire(&mut self) {
+        self.log("fire", "-", "-");
+    }
+    /// merge with the server hook events by sequence number
+    fn merged(&self, hooks: &[Value]) -> Vec<Value> {
+        let mut all: Vec<Value> = self.client.clone();
+        for h in hooks {
+            let name = h["name"].as_str().unwrap_or("");
+            if !name.starts_with("srv.") {
+                continue;
+            }
+            let mut e = h.clone();
+            if name == "srv.accepted" {
+                let port = h["peer_port"].as_u64().unwrap_or(0) as u16;
+                e["c"] = json!(self.ports.get(&port).cloned().unwrap_or_else(|| "c0".into()));
+            }
+            all.push(e);
+        }
+        all.sort_by_key(|e| e["seq"].as_u64().unwrap_or(0));
+        all
+    }
+}
+
+// ---------------------------------------------------------------------------------------
 // limit: the connection limit and slot accounting (C15)
+
+fn served_tl(tl: &mut Timeline, c: &str, s: &mut TcpStream, timeout: Duration) -> bool {
+    tl.send(c, "get");
+    served(s, timeout)
+}
 
 fn served(s: &mut TcpStream, timeout: Duration) -> bool {
     if s.write_all(&cmd(&[b"GET", b"probe"])).is_err() {
@@ -599,67 +658,66 @@ fn limit_mode(inputs: &[Value], _seed: u64, si: usize, sn: usize, out: &mut Trac
         let _ = take_events();
         let store = StubStore::default();
         let srv = start_server(store.clone(), max);
+        let mut tl = Timeline::default();
         let mut steps: Vec<Value> = vec![];
         let quick = Duration::from_millis(150);
         let slow = Duration::from_secs(3);
         // fill every slot
-        let mut held: Vec<TcpStream> = vec![];
+        let mut held: Vec<(TcpStream, String)> = vec![];
         for _ in 0..max {
-            let mut s = connect(srv.addr).expect("connect");
-            let ok = served(&mut s, slow);
+            let (mut s, c) = tl.connect(srv.addr).expect("connect");
+            let ok = served_tl(&mut tl, &c, &mut s, slow);
             steps.push(json!({"step": "fill", "served": ok}));
-            held.push(s);
+            held.push((s, c));
         }
         for ending in &endings {
             // one more client than there are slots: must wait
-            let mut extra = connect(srv.addr).expect("connect");
-            let early = served(&mut extra, quick);
+            let (mut extra, extra_c) = tl.connect(srv.addr).expect("connect");
+            let early = served_tl(&mut tl, &extra_c, &mut extra, quick);
             steps.push(json!({"step": "extra-while-full", "served": early}));
             if ending == "rst-in-backlog" {
                 // a second waiting client resets its connection while still un-accepted
-                if let Some(r) = connect(srv.addr) {
+                if let Some((r, rc)) = tl.connect(srv.addr) {
                     set_linger0(&r);
+                    tl.close(&rc);
                     drop(r);
                 }
                 std::thread::sleep(Duration::from_millis(30));
             }
             // one served connection ends in the given way
-            let mut victim = held.remove(0);
+            let (mut victim, vc) = held.remove(0);
             match ending.as_str() {
-                "close" | "rst-in-backlog" => drop(victim),
+                "close" | "rst-in-backlog" => {
+                    tl.close(&vc);
+                    drop(victim)
+                }
                 "half-frame" => {
+                    tl.send(&vc, "half");
                     let _ = victim.write_all(b"*2\r\n$3\r\nGET\r\n$5\r\nab");
                     std::thread::sleep(Duration::from_millis(20));
+                    tl.close(&vc);
                     drop(victim);
                 }
                 "half-frame-open" => {
                     // sends half a frame and goes away without closing cleanly (RST)
+                    tl.send(&vc, "half");
                     let _ = victim.write_all(b"*2\r\n$3\r\nGE");
                     set_linger0(&victim);
+                    tl.close(&vc);
                     drop(victim);
                 }
-                "malformed" => {
-                    let _ = victim.write_all(b"*1\r\n$4\r\nNOPE\r\n");
+                "malformed" | "garbage" | "panic" | "store-error" => {
+                    let (bytes, kind, step): (Vec<u8>, &str, &str) = match ending.as_str() {
+                        "malformed" => (b"*1\r\n$4\r\nNOPE\r\n".to_vec(), "bad", "malformed-closed-by-server"),
+                        "garbage" => (b"!!!\r\n".to_vec(), "bad", "garbage-closed-by-server"),
+                        "panic" => (cmd(&[b"GET", b"boom"]), "boom", "panic-closed-by-server"),
+                        _ => (cmd(&[b"GET", b"fail"]), "boom", "error-closed-by-server"),
+                    };
+                    tl.send(&vc, kind);
+                    let _ = victim.write_all(&bytes);
                     let (_, e) = read_some(&mut victim, 1, slow);
-                    steps.push(json!({"step": "malformed-closed-by-server", "ended": e}));
-                    drop(victim);
-                }
-                "garbage" => {
-                    let _ = victim.write_all(b"!!!\r\n");
-                    let (_, e) = read_some(&mut victim, 1, slow);
-                    steps.push(json!({"step": "garbage-closed-by-server", "ended": e}));
-                    drop(victim);
-                }
-                "panic" => {
-                    let _ = victim.write_all(&cmd(&[b"GET", b"boom"]));
-                    let (_, e) = read_some(&mut victim, 1, slow);
-                    steps.push(json!({"step": "panic-closed-by-server", "ended": e}));
-                    drop(victim);
-                }
-                "store-error" => {
-                    let _ = victim.write_all(&cmd(&[b"GET", b"fail"]));
-                    let (_, e) = read_some(&mut victim, 1, slow);
-                    steps.push(json!({"step": "error-closed-by-server", "ended": e}));
+                    steps.push(json!({"step": step, "ended": e}));
+                    tl.close(&vc);
                     drop(victim);
                 }
                 e => panic!("ending {e}"),
@@ -667,34 +725,42 @@ fn limit_mode(inputs: &[Value], _seed: u64, si: usize, sn: usize, out: &mut Trac
             // now the waiting client gets its slot
             let late = if early { true } else { let (b, e) = read_reply_bytes(&mut extra, 1, slow); e == "ok" && !b.is_empty() };
             steps.push(json!({"step": "extra-after-free", "ending": ending, "served": late}));
-            held.push(extra);
+            held.push((extra, extra_c));
             // and the limit still holds: yet another client must wait
-            let mut over = connect(srv.addr).expect("connect");
-            let over_served = served(&mut over, quick);
+            let (mut over, oc) = tl.connect(srv.addr).expect("connect");
+            let over_served = served_tl(&mut tl, &oc, &mut over, quick);
             steps.push(json!({"step": "over-limit", "ending": ending, "served": over_served}));
+            tl.close(&oc);
             drop(over);
             std::thread::sleep(Duration::from_millis(20));
         }
         // finally: everybody leaves, then the full number can be served concurrently again
-        held.clear();
+        for (s, c) in held.drain(..) {
+            tl.close(&c);
+            drop(s);
+        }
         std::thread::sleep(Duration::from_millis(50));
-        let mut again: Vec<TcpStream> = vec![];
+        let mut again: Vec<(TcpStream, String)> = vec![];
         let mut all_served = true;
         for _ in 0..max {
-            let mut s = connect(srv.addr).expect("connect");
-            all_served &= served(&mut s, slow);
-            again.push(s);
+            let (mut s, c) = tl.connect(srv.addr).expect("connect");
+            all_served &= served_tl(&mut tl, &c, &mut s, slow);
+            again.push((s, c));
         }
         steps.push(json!({"step": "refill", "served": all_served}));
-        let mut over = connect(srv.addr).expect("connect");
-        steps.push(json!({"step": "over-limit-final", "served": served(&mut over, quick)}));
+        let (mut over, oc) = tl.connect(srv.addr).expect("connect");
+        steps.push(json!({"step": "over-limit-final", "served": served_tl(&mut tl, &oc, &mut over, quick)}));
+        tl.close(&oc);
         drop(over);
-        again.clear();
-        std::thread::sleep(Duration::from_millis(50));
+        for (s, c) in again.drain(..) {
+            tl.close(&c);
+            drop(s);
+        }
+        std::thread::sleep(Duration::from_millis(80));
         let hooks = take_events();
         srv.stop();
         pend.clear();
-        out.emit(&json!({"ev": "limit", "max": max, "endings": endings, "steps": steps,
+        out.emit(&json!({"ev": "limit", "max": max, "endings": endings, "steps": steps, "timeline": tl.merged(&hooks),
                          "hooks": hooks.iter().filter(|e| e["name"] != "conn.read" && e["name"] != "conn.eof").cloned().collect::<Vec<_>>()}));
         n += 1;
     }
@@ -716,13 +782,17 @@ fn shutdown_mode(inputs: &[Value], _seed: u64, si: usize, sn: usize, out: &mut T
         let store = StubStore::default();
         *GATE.lock().unwrap() = (false, false);
         let mut srv = start_server(store.clone(), 16);
+        let mut tl = Timeline::default();
         let mut clients: Vec<(String, TcpStream, Vec<u8>, usize)> = vec![]; // state, socket, received so far, acked sets
+        let mut cnames: Vec<String> = vec![];
         let big = vec![b'x'; 6 * 1024 * 1024];
         let mut gate_used = false;
         for (ci, st) in states.iter().enumerate() {
-            let mut s = connect(srv.addr).expect("connect");
+            let (mut s, cname) = tl.connect(srv.addr).expect("connect");
+            cnames.push(cname.clone());
             let key = format!("k{ci}").into_bytes();
             // every client first does one acknowledged SET (must be in the store afterwards)
+            tl.send(&cname, "set");
             let _ = s.write_all(&cmd(&[b"SET", &key, b"acked"]));
             let (mut recv, _) = read_reply_bytes(&mut s, 1, Duration::from_secs(3));
             let acked = count_replies(&recv);
@@ -730,6 +800,7 @@ fn shutdown_mode(inputs: &[Value], _seed: u64, si: usize, sn: usize, out: &mut T
                 "idle" => {}
                 "mid-frame" => {
                     let before = count_events("conn.read");
+                    tl.send(&cname, "half");
                     let _ = s.write_all(b"*3\r\n$3\r\nSET\r\n$2\r\nzz\r\n$5\r\nab");
                     wait_events("conn.read", before, Duration::from_millis(500));
                 }
@@ -737,6 +808,8 @@ fn shutdown_mode(inputs: &[Value], _seed: u64, si: usize, sn: usize, out: &mut T
                     // a complete request and the beginning of the next one in ONE segment
                     let mut seg = cmd(&[b"GET", &key]);
                     seg.extend_from_slice(b"*2\r\n$3\r\nGET\r\n$2\r\nz");
+                    tl.send(&cname, "get");
+                    tl.send(&cname, "half");
                     let _ = s.write_all(&seg);
                     let (b, _) = read_reply_bytes(&mut s, 1, Duration::from_secs(3));
                     recv.extend(b);
@@ -744,6 +817,7 @@ fn shutdown_mode(inputs: &[Value], _seed: u64, si: usize, sn: usize, out: &mut T
                 "mid-command" => {
                     GATE_ARMED.store(true, Ordering::SeqCst);
                     gate_used = true;
+                    tl.send(&cname, "get");
                     let _ = s.write_all(&cmd(&[b"GET", b"gate"]));
                     // wait until the store call is really executing on the blocking pool
                     let g = GATE.lock().unwrap();
@@ -751,9 +825,11 @@ fn shutdown_mode(inputs: &[Value], _seed: u64, si: usize, sn: usize, out: &mut T
                 }
                 "writing-reply" => {
                     // a large value whose reply the client does not read before the signal
+                    tl.send(&cname, "set");
                     let _ = s.write_all(&cmd(&[b"SET", b"big", &big]));
                     let (b, _) = read_reply_bytes(&mut s, 1, Duration::from_secs(5));
                     recv.extend(b);
+                    tl.send(&cname, "get");
                     let _ = s.write_all(&cmd(&[b"GET", b"big"]));
                     std::thread::sleep(Duration::from_millis(60));
                 }
@@ -763,6 +839,7 @@ fn shutdown_mode(inputs: &[Value], _seed: u64, si: usize, sn: usize, out: &mut T
         }
         // fire
         let t0 = Instant::now();
+        tl.fire();
         if let Some(f) = srv.fire.take() {
             let _ = f.send(());
         }
@@ -802,10 +879,13 @@ fn shutdown_mode(inputs: &[Value], _seed: u64, si: usize, sn: usize, out: &mut T
                 }
             })
             .collect();
+        for c in &cnames {
+            tl.close(c);
+        }
         let hooks = take_events();
         srv.stop();
         pend.clear();
-        out.emit(&json!({"ev": "shutdown", "states": states, "returned": ret.is_some(), "return_ms": ret.map(|d| d.as_millis() as i64).unwrap_or(-1),
+        out.emit(&json!({"ev": "shutdown", "states": states, "max": 16, "timeline": tl.merged(&hooks), "returned": ret.is_some(), "return_ms": ret.map(|d| d.as_millis() as i64).unwrap_or(-1),
                          "clients": cl_out, "store": final_store,
                          "hooks": hooks.iter().filter(|e| e["name"].as_str().unwrap_or("").starts_with("srv.")).cloned().collect::<Vec<_>>()}));
         n += 1;
